@@ -8,6 +8,8 @@ CONSTANTS
   Sills = {2, 5}
   Layouts = {"spread", "cluster", "nodes", "outside"}
   Verrs = {"const", "distinct", "extreme"}
+  NStructs = {1, 2}
+  Drifts = {"none", "const", "linear"}
   Keep <- KeepThor
   HeavyEvery = 3
   PolyCoefs <- Coefs
